@@ -313,6 +313,10 @@ func Create(name string) (*os.File, error) {
 
 func Mmap(fd int, offset int64, length, prot, flags int) ([]byte, error) {
 	b, err := syscall.Mmap(fd, offset, length, prot, flags)
+	if err == nil && len(b) > 0 && DebugMaps && S != nil {
+		name, _ := os.Readlink(fmt.Sprintf("/proc/self/fd/%d", fd))
+		S.Event("DEBUG mmap %p len %d of %s", &b[0], len(b), name)
+	}
 	if err == nil && len(b) > 0 {
 		resMu.Lock()
 		resMaps[&b[0]] = b
@@ -321,13 +325,30 @@ func Mmap(fd int, offset int64, length, prot, flags int) ([]byte, error) {
 	return b, err
 }
 
+// DebugMaps: every mapping and unmapping of the code under test becomes an event of the trace (debugging aid).
+var DebugMaps = os.Getenv("VERIF_DEBUG_MAPS") != ""
+
 func Munmap(b []byte) error {
-	if len(b) > 0 {
-		resMu.Lock()
-		delete(resMaps, &b[0])
-		resMu.Unlock()
+	if len(b) > 0 && DebugMaps && S != nil {
+		S.Event("DEBUG munmap %p len %d", &b[0], len(b))
 	}
-	return syscall.Munmap(b)
+	if len(b) == 0 {
+		return syscall.Munmap(b)
+	}
+	// The simulated processes of a run share one address space. A real munmap would let the next mmap - of ANOTHER
+	// simulated process - reuse the addresses, and a late access of the first process through its stale page object
+	// (lindb: a stream handler that is still inside queue.Put while the node's shutdown closes the log) would then
+	// read or write the other process's file instead of faulting: a corruption across processes that no deployment
+	// can produce (met once in 30000 runs of C08 as `bytes-differ` on a node that nothing had happened to). So the
+	// range stays reserved until the run is over and every access to it faults, as it does after a munmap in the
+	// process that did it (SetPanicOnFault turns the fault into a panic of that task).
+	resMu.Lock()
+	_, known := resMaps[&b[0]]
+	resMu.Unlock()
+	if !known {
+		return syscall.Munmap(b)
+	}
+	return syscall.Mprotect(b, syscall.PROT_NONE)
 }
 
 // ReleaseResources closes every file and removes every mapping that the finished run left behind.
